@@ -23,7 +23,7 @@ TCase == /\ More /\ Cur.ev = "case" /\ pc = "idle"
 TBegin == More /\ Cur.ev = "begin" /\ Begin /\ l' = l + 1
 TDial == More /\ Cur.ev = "dial" /\ Dial /\ gen' = Cur.g /\ l' = l + 1
 TRx == More /\ Cur.ev = "rx" /\ Cur.g = gen /\ Rx /\ l' = l + 1
-TFault == More /\ Cur.ev = "fault" /\ Cur.g = gen /\ (FaultWrite \/ FaultRead \/ FaultAfter) /\ l' = l + 1
+TFault == More /\ Cur.ev = "fault" /\ Cur.g = gen /\ (FaultWrite \/ FaultRead \/ FaultAfter \/ FaultWithReply) /\ l' = l + 1
 TReply == More /\ Cur.ev = "reply" /\ Cur.g = gen /\ Reply /\ l' = l + 1
 TRet == /\ More /\ Cur.ev = "ret" /\ l' = l + 1
         /\ \/ Cur.outcome = "resp" /\ RetResp
